@@ -135,6 +135,8 @@ func (t *tailBuffer) String() string {
 	return string(t.buf)
 }
 
+const symlinkMarker = "\x00symlink\n"
+
 // writeConfigDir creates <dir>/servitor/config.toml; empty text means "no file".
 func writeConfigDir(text string) (string, error) {
 	dir, err := os.MkdirTemp("", "verif-cfg-")
@@ -146,7 +148,16 @@ func writeConfigDir(text string) (string, error) {
 			return "", err
 		}
 		text = strings.ReplaceAll(text, "@@DIR@@", dir)
-		if err := os.WriteFile(filepath.Join(dir, "servitor", "config.toml"), []byte(text), 0o644); err != nil {
+		if strings.HasPrefix(text, symlinkMarker) {
+			// the configuration file is a symbolic link to the real file (dotfile managers do that)
+			text = strings.TrimPrefix(text, symlinkMarker)
+			if err := os.WriteFile(filepath.Join(dir, "dotfiles-servitor.toml"), []byte(text), 0o644); err != nil {
+				return "", err
+			}
+			if err := os.Symlink(filepath.Join("..", "dotfiles-servitor.toml"), filepath.Join(dir, "servitor", "config.toml")); err != nil {
+				return "", err
+			}
+		} else if err := os.WriteFile(filepath.Join(dir, "servitor", "config.toml"), []byte(text), 0o644); err != nil {
 			return "", err
 		}
 	}
